@@ -37,6 +37,10 @@ type C19Plan struct {
 	// CancelSite: instead, cancel exactly when a task is about to continue from
 	// the CancelAfter-th yield site whose name starts with this prefix.
 	CancelSite string `json:"cancel_site,omitempty"`
+	// FirstReqGone: the very first request this server instance ever handles
+	// (device 1's DI.AppStart) arrives with an already cancelled context. That
+	// device fails; nobody else may be affected.
+	FirstReqGone bool `json:"first_req_gone,omitempty"`
 }
 
 type c19 struct{ noPrepare }
@@ -85,6 +89,9 @@ func (p *c19) Plan(tier string, seed uint64, i int) any {
 	}
 	pl := &C19Plan{Seed: seed*1_000_003 + uint64(i), N: n, Sql: i%4 == 3, Sched: []SchedPolicy{SchedRandom, SchedPCT}[i%2], Delays: i%3 != 0,
 		Payload: 1 + r.IntN(3000), DevMTU: []int{0, 256, 1300, 4000}[r.IntN(4)]}
+	if i%8 == 7 {
+		pl.FirstReqGone = true // an sql plan (i%4 == 3)
+	}
 	if i%4 == 1 {
 		pl.CancelAfter = 1 + r.IntN(60*n)
 		pl.N = min(pl.N, 4)
@@ -350,6 +357,16 @@ func c19World(pl *C19Plan, n int, seedSalt uint64) (results []c19Result, k *Kern
 			}
 		})
 	}
+	if pl.FirstReqGone && seedSalt == 0 {
+		// device 1 sends DI.AppStart exactly once; the other devices start ten
+		// virtual minutes later, so this is the first request the server handles
+		// (no shared variable: tasks must not synchronise through the harness)
+		w.Net.AddHook(func(ev *NetEvent) {
+			if ev.Phase == "req" && ev.From == "dev1" && ev.MsgType == 10 {
+				ev.CancelBefore = true
+			}
+		})
+	}
 	results = make([]c19Result, n)
 	// the context of device 1's TO2 and, for site-triggered cancellation, the
 	// scheduler callback are set up before any task runs (the callback is
@@ -378,6 +395,9 @@ func c19World(pl *C19Plan, n int, seedSalt uint64) (results []c19Result, k *Kern
 		k.Go(name, func() {
 			defer wg.Done()
 			res := &results[i]
+			if pl.FirstReqGone && seedSalt == 0 && i > 0 {
+				k.Sleep(10*time.Minute, "wait.first")
+			}
 			dev := w.NewDevice(name, role, cfg)
 			res.dev = dev
 			if err := w.DI(ctx, dev, "aio"); err != nil {
@@ -483,7 +503,14 @@ func (p *c19) Exec(env *Env, plan any) {
 	}
 	node := w.Nodes["aio"]
 	fails := 0
+	goneSeen := 0
 	for i, r := range results {
+		if !r.ok && pl.FirstReqGone && strings.HasPrefix(r.err, "DI:") && goneSeen == 0 {
+			// the one device whose first request was cancelled
+			goneSeen++
+			o.Fault("first-request-gone")
+			continue
+		}
 		if !r.ok && i == 0 && pl.CancelAfter > 0 && strings.HasPrefix(r.err, "TO2:") {
 			// the cancelled call returned with an error: that is its contract
 			o.Fault("context-cancelled")
@@ -558,7 +585,7 @@ func (p *c19) Exec(env *Env, plan any) {
 	cleaned = true
 	solo, _, _, _, cleanup2 := c19World(pl, 1, 7777)
 	defer cleanup2()
-	if solo[0].ok != results[0].ok && pl.CancelAfter == 0 {
+	if solo[0].ok != results[0].ok && pl.CancelAfter == 0 && !pl.FirstReqGone {
 		o.Violate("C19", "outcome-differs-from-solo", "baseline", "device 1 alone: ok=%v (%s); among %d devices: ok=%v (%s)", solo[0].ok, solo[0].err, pl.N, results[0].ok, results[0].err)
 	}
 	o.Sample = map[string]any{"n": pl.N, "sql": pl.Sql, "steps": k.Steps, "max_runnable": k.MaxRunnable, "race_build": RaceBuild}
